@@ -23,3 +23,9 @@ package tabula
 //@     invariant forall a int, b int :: {pageIndices[a], pageIndices[b]} 0 <= a && a < b && b < len(pageIndices) ==> pageIndices[a] != pageIndices[b]
 //@     invariant forall k int :: {pageIndices[k]} 0 <= k && k < len(pageIndices) ==> exists j int :: 0 <= j && j < $i && e.options.pages[j] == pageIndices[k] + 1
 //@     invariant forall j int :: {e.options.pages[j]} 0 <= j && j < $i ==> exists k int :: 0 <= k && k < len(pageIndices) && pageIndices[k] + 1 == e.options.pages[j]
+
+// ---- C20: content that is recognised as a different supported format is refused ----
+// detected is the format recognised from the file's content.
+//@ func (*Extractor) validateFormat results (err)
+//@   property C20
+//@   ensures refused_on_mismatch: detected != format.Unknown && detected != e.format ==> err
